@@ -731,16 +731,24 @@ def run_huge(ctx, G, quick, has_dot):
     tmp = tempfile.mkdtemp(prefix='c14huge-')
     seed = ctx.rng.randrange(1 << 30) | 1
 
+    def coprime_step(total):
+        import math
+        step = 1000003 + (seed % 1000) * 2
+        while math.gcd(step, total) != 1:
+            step += 2
+        return step
+
     def sparse(ty, n, m):
-        """m distinct edges on n vertices by an arithmetic scramble"""
+        """m distinct edges on n vertices: the pairs (u, v) are visited in the order p = i * step mod n*n, each once"""
         def f():
             g = G.Graph(n, 'large') if ty == 'simple' else G.DirectedGraph(n, 'large')
-            k = 0
-            i = 0
-            while k < m:
-                u = 1 + (seed * i + 17 * i * i) % n
-                v = 1 + (u + 1 + (i * 7919) % (n - 1)) % n
+            total = n * n
+            step = coprime_step(total)
+            k = i = 0
+            while k < m and i < total:
+                p = (i * step) % total
                 i += 1
+                u, v = 1 + p // n, 1 + p % n
                 if u == v:
                     continue
                 if ty == 'dag' and u > v:
@@ -754,14 +762,11 @@ def run_huge(ctx, G, quick, has_dot):
     def bip(L, R, m):
         def f():
             g = G.BipartiteGraph(L, R, 'large')
-            k = 0
-            i = 0
-            while k < m:
-                u, v = 1 + (seed * i + 3 * i * i) % L, 1 + (i * 7919 + i // L) % R
-                i += 1
-                before = g.number_of_edges()
-                g.add_edge(u, v)
-                k += g.number_of_edges() - before
+            total = L * R
+            step = coprime_step(total)
+            for i in range(min(m, total)):
+                p = (i * step) % total
+                g.add_edge(1 + p // R, 1 + p % R)
             return g
         return f
 
